@@ -16,7 +16,7 @@ fn k_db_1_report_untracked_read() {
     let (r0, r1, r2) = (vk::any_revision(), vk::any_revision(), vk::any_revision());
     vk::assume(r0 >= r1 && r1 >= r2);
     crate::runtime::verif::set_revs(z.runtime_mut(), [r0, r1, r2]);
-    let db = HDb { zalsa: z, local: ZalsaLocal::new() };
+    let db = HDb { zalsa: z, local: crate::zalsa_local::verif::local_static() };
     let frame = db.local.push_query(vk::key(3, 1));
     let (d, c) = (vk::any_durability(), vk::any_revision());
     vk::assume(c <= r0);
@@ -42,7 +42,7 @@ fn k_db_2_synthetic_write() {
     let (r0, r1, r2) = (vk::any_revision(), vk::any_revision(), vk::any_revision());
     vk::assume(r0 >= r1 && r1 >= r2);
     crate::runtime::verif::set_revs(z.runtime_mut(), [r0, r1, r2]);
-    let mut db = HDb { zalsa: z, local: ZalsaLocal::new() };
+    let mut db = HDb { zalsa: z, local: crate::zalsa_local::verif::local_static() };
     let d = vk::any_writable_durability();
     db.synthetic_write(d);
     let now = db.zalsa.current_revision();
@@ -72,7 +72,7 @@ fn k_db_2_synthetic_write() {
 #[kani::unwind(5)]
 #[kani::should_panic]
 fn k_db_2p_never_change_synthetic_write_panics() {
-    let mut db = HDb { zalsa: crate::zalsa::verif::bare_zalsa(), local: ZalsaLocal::new() };
+    let mut db = HDb { zalsa: crate::zalsa::verif::bare_zalsa(), local: crate::zalsa_local::verif::local_static() };
     db.synthetic_write(Durability::NEVER_CHANGE);
     std::mem::forget(db);
 }
